@@ -118,6 +118,8 @@ func ParseField(v reflect.Value, bytes []byte, params fieldParameters) error {
 	if int64(talOff)+tal.len > int64(len(bytes)) {
 		return fmt.Errorf("type value out of range")
 	}
+	// the declared length is the extent of the element: octets after it are not part of its contents
+	bytes = bytes[:int64(talOff)+tal.len]
 
 	// We deal with the structures defined in this package first.
 	switch fieldType {
